@@ -378,3 +378,56 @@ OBSERVATIONS = [
     "after delta coding counter = quota: the whole offspring of the two best species are super-champion clones and the "
     "champion-clone branch never fires",
 ]
+
+
+# ------------------------------------------------------------------------------------------------ use by the listed properties
+# Clauses of Trace_Reproduce that ARE clauses of a listed property's statement (the rest - which branch fires when, counters,
+# flags - is conformance with Reproduce.tla and belongs to X10 only).
+PROPERTY_CLAUSES = {
+    "C01": ["C01:"],
+    "C02": ["C02:"],
+    "C04": ["C04:"],
+    "C05": ["C05:"],
+    "C06": ["C06:"],
+    "C09": ["C09:"],
+    "C10": ["C10:champion of a species with quota > 5 got no unmodified copy"],
+}
+
+
+def reproduce_traces(ctx, replay, prop):
+    """The reproduction traces of X10 (every decision of the real Species.reproduce inside real sequential epochs, validated
+    line by line by Trace_Reproduce) judged for the clauses of `prop` only: operands and results of every duplicate / crossover
+    / mutation the library itself performs while reproducing, every baby, every generation."""
+    want = PROPERTY_CLAUSES[prop]
+    sem = threading.Semaphore(4)
+    if replay is not None:
+        scs = []
+        for v in replay.get("violations", []):
+            p = v.get("replay", {})
+            if p.get("kind") == "x10" and p.get("scenario") and p["scenario"] not in scs:
+                scs.append(p["scenario"])
+        if not scs:
+            return
+        groups = [[s] for s in scs[:12]]
+    else:
+        groups = chunk(scenarios(ctx.seed, ctx.tier), 700 if ctx.tier != "thorough" else 1500)
+    ctx.vh_binary(pkg="vh_x10")
+    with ThreadPoolExecutor(max_workers=4) as ex:
+        results = list(ex.map(lambda a: record_and_validate(ctx, a[0] + 300, a[1], sem), enumerate(groups)))
+    if any(r["nohooks"] for r in results):
+        raise Infra("hooks not installed: no x10.* hook event arrived from Species.reproduce of the goNEAT tree the harness was built against")
+    babies = 0
+    for res in results:
+        bad = {f["l"] for f in res["fails"]}
+        _, _, scen = tally(res["trace"], bad)
+        babies += res["rep"].get("evaluations", 0)
+        ctx.traces += len(res["scs"])
+        for f in res["fails"]:
+            mine = [c for c in f["fails"] if any(c.startswith(w) for w in want)]
+            if mine:
+                sc = scen.get(f["l"])
+                ctx.violation("reproduction trace, scenario %s, line %d (%s): %s" % (json.dumps(sc), f["l"], f["ev"], "; ".join(mine)),
+                              "%s reproduce %s %s" % (prop, f["ev"], mine[0]),
+                              {"kind": "x10", "scenario": sc, "line": f["l"], "event": f["ev"], "clauses": mine})
+    ctx.evaluations += babies
+    ctx.extra.setdefault("scope", {})["reproduction_traces"] = {"scenarios": sum(len(g) for g in groups), "babies": babies}
